@@ -168,7 +168,13 @@ def conclude(pid, tier, seed, summaries, known, wall, extra_results=()):
     for er in extra_results:
         lines.extend(er.get("lines", []))
         violations_confirmed += er.get("violations", 0)
-        errors.extend(er.get("errors", []))
+        for e in er.get("errors", []):
+            if "does not reproduce on the real" in e or e.startswith("TranslationError"):
+                # the schedule model does not fit this tree (a counterexample that the real threads do not reproduce, or a
+                # statement form the front end cannot translate): not a violation, not a proof -- DEGRADED
+                degraded.append("symbmc: " + e.splitlines()[0][:300])
+            else:
+                errors.append(e)
         inconclusive.extend(er.get("inconclusive", []))
         known_hit.update(er.get("known_hit", {}))
     for lab, k in sorted(known_hit.items()):
